@@ -46,7 +46,8 @@ CONTRACTS = [
     # ------------------------------------------------------------------ assumed: OS / library
     Contract("ext::Path.mkdir", varargs=True, modifies=["g_dirs"],
              ensures=["self in g_dirs", "forall(d, 'Val[Path]', implies(old(d in g_dirs), d in g_dirs))"],
-             raises={"OSError+": []}, trusted_reason="A-LIB: mkdir(parents=True, exist_ok=True) leaves an existing directory or raises OSError"),
+             raises={"OSError+": ["forall(d, 'Val[Path]', implies(old(d in g_dirs), d in g_dirs))"]},
+             trusted_reason="A-LIB: mkdir(parents=True, exist_ok=True) leaves an existing directory or raises OSError; never removes anything"),
     Contract("ext::subprocess.Popen",
              params={"args": "List[str]", "shell": "bool", "cwd": "Val[Path]", "executable": "str", "stdout": "Opt[File]", "stderr": "Opt[File]",
                      "env": "Dict[str,str]#envd", "start_new_session": "bool"},
